@@ -521,3 +521,40 @@ _c05_codec = CHECKS["C05"]["jobs"]
 CHECKS["C05"]["jobs"] = lambda tier: _c05_codec(tier) + tl_jobs("C05")(tier)
 CHECKS["C05"]["level_text"] += ("; plus, for every ordered pair (writer version, reader version) of the 225-version table graph with all "
                                 "writer entries set, every cut - i.e. also inside entries the reader skips or has deleted and inside padding")
+
+# ----------------------------------------------------------------------------------------------- C14
+c14 = B("c14", "checks/c14_rpc.cpp", "gcc")
+c14_pass = B("c14_pass", "checks/c14_rpc.cpp", "gcc", defs=["C14_PASSTHROUGH"])
+c14_asan = B("c14_asan", "checks/c14_rpc.cpp", "asan")
+
+
+def jobs_c14(tier):
+    js = [job(c14, "--tier", tier), job(c14_pass, "--tier", tier)]
+    if tier == "thorough":
+        js.append(job(c14_asan, "--tier", tier))
+    return js
+
+
+CHECKS["C14"] = dict(
+    engine="rpc-lab", level="model_checking", jobs=jobs_c14, build_failure_is_violation=True,
+    level_text="single-threaded end-to-end loop (Invoke -> SimpleMethodSender -> request pipe -> InterfaceBindings + "
+               "SimpleMethodReceiver on demand -> reply pipe -> Invoke's return) over three binding sets (lambdas + function "
+               "pointer incl. a handler whose parameter is fungible with the declared one and conforming call arguments; "
+               "method pointers with the instance as passthrough and a partial binding; 32-bit selectors 0/127/128/2^32-1 and "
+               "a hashed one) plus handlers with leading passthrough parameters: ALL call sequences up to length 2 (3 "
+               "thorough) over 24/14/10-call alphabets; after every call the handler log must hold exactly the selected "
+               "handler once with equal arguments, Invoke must return the handler's value, both pipes must be empty. Every "
+               "truncation, every byte x every value (requests <= 40 bytes) and unbound selectors of every recorded request "
+               "are fed to the dispatcher and compared with an independent request decoder: InvalidInterfaceMethod for "
+               "unbound selectors, a decode error otherwise, no handler entry, zero reply bytes",
+    level_note="handlers are pure functions so the expected return is computed independently; sequences are enumerated "
+               "without state merging (a hidden static would show as a second-call difference); binding shapes that the "
+               "documentation allows but that do not compile are reported through the build-failure path",
+    technique="explicit-state exploration of call sequences on the real dispatcher against a reference model",
+    rule="states = call sequences executed on fresh connections; transitions = calls / bad requests executed and compared",
+    assumptions=R_ASSUME,
+    bounds=dict(quick="sequence length <= 2", thorough="sequence length <= 3, ASan build"),
+    floor=dict(transitions=dict(quick=50000, thorough=100000)),
+)
+ENGINES.append(dict(name="rpc-lab", path="checks/c14_rpc.cpp", serves_properties=["C14"],
+                    kind_free_text="in-process RPC loop over byte pipes; exhaustive call sequences and mutated requests"))
